@@ -357,29 +357,73 @@ func reach(fn *ssa.Function, from *ssa.BasicBlock, cut EdgeSet) map[*ssa.BasicBl
 	if from == nil {
 		from = fn.Blocks[0]
 	}
+	return reachVia(fn, nil, from, cut)
+}
+
+// reachVia is reach with one refinement: when a block is entered from a
+// predecessor for which the phi deciding the block's If is a boolean constant
+// (the shape go/ssa gives to `a && b` / `a || b` used as a value), only the
+// successor that constant selects is followed.
+func reachVia(fn *ssa.Function, pred, from *ssa.BasicBlock, cut EdgeSet) map[*ssa.BasicBlock]bool {
+	type state struct {
+		b    *ssa.BasicBlock
+		only int // -1: all successors, 0/1: only that successor
+	}
 	seen := map[*ssa.BasicBlock]bool{from: true}
-	work := []*ssa.BasicBlock{from}
-	for len(work) > 0 {
-		b := work[len(work)-1]
-		work = work[:len(work)-1]
-		for i, s := range b.Succs {
-			if cut[Edge{b, i}] {
-				continue
-			}
-			if !seen[s] {
-				seen[s] = true
-				work = append(work, s)
+	done := map[state]bool{}
+	only := func(p, b *ssa.BasicBlock) int {
+		if p == nil || len(b.Instrs) == 0 {
+			return -1
+		}
+		iff, ok := b.Instrs[len(b.Instrs)-1].(*ssa.If)
+		if !ok {
+			return -1
+		}
+		base, neg := condNorm(iff.Cond)
+		phi, ok := base.(*ssa.Phi)
+		if !ok || phi.Block() != b {
+			return -1
+		}
+		for i, pp := range b.Preds {
+			if pp == p {
+				if k, ok := constBool(phi.Edges[i]); ok {
+					if neg {
+						k = !k
+					}
+					if k {
+						return 0
+					}
+					return 1
+				}
 			}
 		}
+		return -1
 	}
-	// Recover blocks are entered on panic, not by a CFG edge; treat as reachable
-	// only if present and not cut (they never hold the constructs we gate).
+	work := []state{{from, only(pred, from)}}
+	for len(work) > 0 {
+		st := work[len(work)-1]
+		work = work[:len(work)-1]
+		if done[st] || done[state{st.b, -1}] {
+			continue
+		}
+		done[st] = true
+		for i, s := range st.b.Succs {
+			if cut[Edge{st.b, i}] {
+				continue
+			}
+			if st.only >= 0 && i != st.only {
+				continue
+			}
+			seen[s] = true
+			work = append(work, state{s, only(st.b, s)})
+		}
+	}
 	return seen
 }
 
 // reachFromEdge: blocks reachable starting from taking edge e.
 func reachFromEdge(fn *ssa.Function, e Edge, cut EdgeSet) map[*ssa.BasicBlock]bool {
-	return reach(fn, e.From.Succs[e.Succ], cut)
+	return reachVia(fn, e.From, e.From.Succs[e.Succ], cut)
 }
 
 // condNorm strips boolean negations; returns base condition and whether it was
@@ -414,6 +458,50 @@ func condEdges(fn *ssa.Function, m CondMatch) []Edge {
 			continue
 		}
 		base, neg := condNorm(iff.Cond)
+		if phi, isPhi := base.(*ssa.Phi); isPhi {
+			// value form of && (all other inputs false) / || (all other inputs true)
+			var v ssa.Value
+			nTrue, nFalse, nOther := 0, 0, 0
+			for _, e := range phi.Edges {
+				if k, ok := constBool(e); ok {
+					if k {
+						nTrue++
+					} else {
+						nFalse++
+					}
+				} else {
+					nOther++
+					v = e
+				}
+			}
+			if nOther == 1 && (nTrue == 0 || nFalse == 0) && nTrue+nFalse > 0 {
+				b2, neg2 := condNorm(v)
+				ok, outcome := m(b2)
+				if !ok {
+					continue
+				}
+				if nTrue == 0 {
+					// phi true  =>  v true  =>  b2 == !neg2
+					if outcome == !neg2 {
+						if !neg {
+							out = append(out, Edge{b, 0})
+						} else {
+							out = append(out, Edge{b, 1})
+						}
+					}
+				} else {
+					// phi false  =>  v false  =>  b2 == neg2
+					if outcome == neg2 {
+						if !neg {
+							out = append(out, Edge{b, 1})
+						} else {
+							out = append(out, Edge{b, 0})
+						}
+					}
+				}
+				continue
+			}
+		}
 		ok, outcome := m(base)
 		if !ok {
 			continue
